@@ -561,12 +561,13 @@ RULE = ('exhaustive: every expression shape over and/or/not/if-else/== (one dist
         'second for-clause, element, lambda body, positional call argument, keyword argument); random beyond the bound (5-9 leaves, repeated atoms, constants, != , rich atoms); '
         'random + fixed queries over the non-boolean grammar. non-trivial = distinct (position, expression) with at least one operator on which the decompiler returned a tree, plus '
         'distinct model-tie cases where the real decompiler returned a tree; correspondence cases = reference-semantics tables + model ties')
-LEVEL_TEXT = ('Machine-checked proof (Coq 8.16.1) of the ORACLE: a truth-table equivalence checker over a 4-valued Python value domain, sound and complete for any number of atoms '
-              '(C03_checker_sound, C03_checker_truth_sound, ..._complete). Every output of the REAL decompiler is judged by that checker (vm_compute) - exhaustively for all boolean-structure '
-              'expressions up to the size bound at 7 positions and randomly beyond; the non-boolean grammar is checked by tree equality. An executable Coq model of CPython 3.12 code generation '
-              'and of Pony\'s Decompiler for the fragment is compared with the real bytecode, Decompiler.instructions, or_jumps, conditions_end and the final AST on every run (no disagreement on '
-              '>200k cases in the thorough tier). On the model: round-trip theorem C03_andor_partial for an unbounded sub-family only; the full and/or/not round trip is REFUTED '
-              '(C03_refuted_filter_wrong_And_Or: a 6-operand and/or expression), as are the classes with ==, if-else and constants (19 recorded findings with witnesses in Findings/C03.v).')
+LEVEL_TEXT = ('Machine-checked proofs (Coq 8.16.1, closed under the global context): (1) the ORACLE - a truth-table equivalence checker over a 4-valued Python value domain, sound and complete '
+              'for any number of atoms (C03_checker_sound / _truth_sound / _complete); every output of the REAL decompiler is judged by it (vm_compute), exhaustively for all boolean-structure '
+              'expressions up to the size bound at 7 positions and randomly beyond; the non-boolean grammar is checked by tree equality. (2) On an executable model of CPython 3.12 code generation + '
+              'Pony\'s Decompiler, compared with the real bytecode, Decompiler.instructions, or_jumps, conditions_end and the final AST on every run (no disagreement on ~90k cases in the thorough tier): '
+              'C03_compile_sound (exec of the compiled stream = eval, all expressions without if-else, all 5 positions) and the round trip C03_andor_partial for the unbounded family "or of ands of '
+              'literals, any widths" in filter position. The full and/or/not round trip is REFUTED (6-operand and/or expression), as are the classes with == operands, if-else and constants: '
+              '19 recorded findings with vm_compute witnesses in Findings/C03.v.')
 LEVEL_NOTE = ('Partial: the proof covers the checker and a sub-family of the round trip; the statement for the whole accepted grammar rests on exhaustive bounded + random validation of the real decompiler '
               'through the verified checker and on the correspondence of the model. Trusted: Coq kernel + vm_compute; the serialisation harness; the 4-valued domain as an abstraction of Python values; '
               'CPython 3.12.1 as the only bytecode version.')
